@@ -99,6 +99,9 @@ func PanicSignature(pan string) string {
 	return "?|" + skeleton(val)
 }
 
+// Skeleton erases digits and quoted text from a message.
+func Skeleton(s string) string { return skeleton(s) }
+
 // skeleton erases digits and quoted text from a message.
 func skeleton(s string) string {
 	var sb strings.Builder
